@@ -108,8 +108,10 @@ EXPORT errno_t _strpbrk_s_chk(char *dest, rsize_t dmax, char *src, rsize_t slen,
         BND_CHK_PTR_BOUNDS(src, slen);
     } else {
         if (unlikely(slen > srcbos)) {
-            return handle_str_bos_overflow("strpbrk_s: slen exceeds src", dest,
-                                           destbos);
+            /* dest is only searched: it is not to be cleared */
+            invoke_safe_str_constraint_handler("strpbrk_s: slen exceeds src",
+                                               (void *)src, EOVERFLOW);
+            return RCNEGATE(EOVERFLOW);
         }
     }
     if (unlikely(slen == 0)) {
